@@ -21,6 +21,11 @@ def units():
         Unit("hash_trig_contract_eqr", P + "hash_trig_contract_eqr", ["Layer::d0h_lh_in_d0c", "Layer::xpm1_and_q", "(assumed facts) f64::sin"], "|lat| <= asin(2/3), |lon| <= 200: base cell < 12, h in [+0,2], l in [-1,1], u=h+l and v=h-l in [+0,2]", timeout=900, level="P"),
         Unit("hash_trig_contract_npc", P + "hash_trig_contract_npc", ["Layer::d0h_lh_in_d0c", "(assumed facts) f64::cos"], "north cap: same contract, north polar base cell; time-bounded refutation search", kind="search", timeout=240),
         Unit("hash_trig_contract_spc", P + "hash_trig_contract_spc", ["Layer::d0h_lh_in_d0c", "(assumed facts) f64::cos"], "south cap: same; time-bounded refutation search", kind="search", timeout=240),
+        Unit("hash_trig_basecell_eqr", P + "hash_trig_basecell_eqr", ["Layer::d0h_lh_in_d0c", "Layer::xpm1_and_q"], "equatorial latitudes, |lon| <= 200: the base cell is one of the four base cells meeting the longitude quarter (q, q+8, 4+q, 4+((q+1)&3))", timeout=600, level="P"),
+        Unit("hash_trig_quadrant_eqr", P + "hash_trig_quadrant_eqr", ["Layer::d0h_lh_in_d0c", "Layer::xpm1_and_q"], "equatorial latitudes: north/east/west/south quadrant of the longitude quarter (w.r.t. its two diagonals, S->E and S->W edges included) -> base cell q / 4+((q+1)&3) / 4+q / q+8; time-bounded refutation search", kind="search", timeout=240),
+        Unit("hash_trig_oracle_eqr", P + "hash_trig_oracle_eqr", ["Layer::d0h_lh_in_d0c", "Layer::xpm1_and_q"], "equatorial latitudes: (d0h, l, h) is exactly the position of the point relative to the centre of base cell d0h (integer geometry of the plane, independent of the quadrant logic); d0h is one of the four base cells meeting the longitude quarter; time-bounded refutation search", kind="search", timeout=300),
+        Unit("hash_trig_oracle_npc", P + "hash_trig_oracle_npc", ["Layer::d0h_lh_in_d0c"], "north cap: d0h == quarter, (l, h) == (x_pm1 s, 2 - s); search", kind="search", timeout=240),
+        Unit("hash_trig_oracle_spc", P + "hash_trig_oracle_spc", ["Layer::d0h_lh_in_d0c"], "south cap: d0h == quarter + 8, (l, h) == (x_pm1 s, s); search", kind="search", timeout=240),
         Unit("hash_lat_must_panic", P + "hash_lat_must_panic", ["Layer::hash", "Layer::hash_v2", "check_lat"], "every depth: latitude outside [-pi/2, pi/2], +-inf or NaN is rejected by a panic on every path", kind="must_panic", allowed_fail=[r"-HALF_PI <= lat && lat <= HALF_PI"], extra=dict(no_native=True)),
         Unit("hash_tail_canary", P + "hash_tail_canary", ["Layer::hash_v2"], "vacuity guard", kind="canary"),
     ]
